@@ -12,7 +12,7 @@ From Coq Require Import List NArith ZArith Bool Arith Lia.
 Import ListNotations.
 Require Import XV.Str XV.Json XV.TextFormat XV.Forest XV.Matcher XV.Differ XV.Spec XV.Path XV.WF XV.ForestProofs XV.TreeProofs
                XV.AttrProofs XV.PathProofs XV.PatcherProofs XV.Render XV.XmlFmt XV.Projections
-               XV.XmlFmtProofs0 XV.XmlFmtProofs1 XV.XmlFmtProofs2 XV.XmlFmtProofs3 XV.XmlFmtProofs4 XV.XmlFmtProofs5
+               XV.XmlFmtProofs0 XV.XmlFmtProofs1 XV.XmlFmtProofs2 XV.XmlFmtProofsR2 XV.XmlFmtProofs3 XV.XmlFmtProofs4 XV.XmlFmtProofs5
                XV.XmlFmtProofs6 XV.XmlFmtProofs7 XV.XmlFmtProofs8.
 Require XV.Placeholder XV.PlaceholderUndo.
 Local Open Scope nat_scope.
@@ -23,7 +23,6 @@ Variable o : oracle.
 Variable rootns : list (option str * str).
 Variable pe : penv.
 Variable root : id.
-Hypothesis Hrep : c_replace c = false.
 Let ws := ws_text c.
 
 (* what the dispatch of handle_action makes of a rendered action *)
@@ -66,19 +65,19 @@ Definition names_plain (a : iact) : Prop :=
 
 (* one action *)
 Theorem accept_step f st d a f' D st' :
-  ainv c rootns pe root f st d -> fs_ph st = ph_init ->
-  spec_apply root f a = Some f' -> dact_of f a = FOk D -> step_ok rootns st D ->
+  ainv c rootns pe root f st d -> tinv (fs_ph st) ->
+  spec_apply root f a = Some f' -> dact_of f a = FOk D -> step_ok rootns st D -> room_ok c st D ->
   handle_d c o rootns st D = FOk st' ->
   exists d', erase d' = fs_tree st' /\ rel ws f' d' /\ did d' = root /\ alive_d d' = true.
 Proof.
-  intros HI Hph Hs HD Hok H.
+  intros HI Hph Hs HD Hok Hroom H.
   destruct a; cbn [dact_of] in HD; inversion HD; subst D; clear HD.
   - exact (accept_Insert c o rootns pe root f st d _ _ _ _ f' st' HI Hs H).
   - exact (accept_Move c o rootns pe root f st d _ _ _ f' st' HI Hs H).
   - exact (accept_Delete c o rootns pe root f st d _ f' st' HI Hs H).
   - exact (accept_Rename c o rootns pe root f st d _ _ f' st' HI Hs H).
-  - exact (accept_Text c o rootns pe root Hrep f st d _ _ f' st' HI Hph Hok Hs H).
-  - exact (accept_Tail c o rootns pe root Hrep f st d _ _ f' st' HI Hph Hok Hs H).
+  - exact (accept_Text c o rootns pe root f st d _ _ f' st' HI Hph Hok Hroom Hs H).
+  - exact (accept_Tail c o rootns pe root f st d _ _ f' st' HI Hph Hok Hroom Hs H).
   - exact (accept_UpdAttr c o rootns pe root f st d _ _ _ f' st' HI Hok Hs H).
   - exact (accept_InsAttr c o rootns pe root f st d _ _ _ f' st' HI Hok Hs H).
   - exact (accept_DelAttr c o rootns pe root f st d _ _ f' st' HI Hok Hs H).
@@ -131,7 +130,7 @@ Qed.
 
 Theorem accept_script script : forall f st d gs fT st',
   wf_forest f root -> erase d = fs_tree st -> rel ws f d -> did d = root -> alive_d d = true ->
-  winv (fs_tree st) -> fs_ph st = ph_init ->
+  tinv (fs_ph st) ->
   run_spec root f script = Some fT -> render_script pe root f script = Some gs ->
   fscript_ok (fs_ns st) f script -> Forall names_plain script ->
   run_ok c o rootns st gs ->
@@ -139,7 +138,7 @@ Theorem accept_script script : forall f st d gs fT st',
   wf_forest fT root /\
   exists d', erase d' = fs_tree st' /\ rel ws fT d' /\ did d' = root /\ alive_d d' = true.
 Proof.
-  induction script as [|a r IH]; intros f st d gs fT st' Hwf He HR Hid Hal HW Hph Hrun Hren Hok Hnp Hro H.
+  induction script as [|a r IH]; intros f st d gs fT st' Hwf He HR Hid Hal Hph Hrun Hren Hok Hnp Hro H.
   - cbn [run_spec render_script] in *. inversion Hrun; inversion Hren; subst. cbn [handle_all] in H. inversion H; subst.
     split; [exact Hwf|eauto].
   - cbn [run_spec render_script fscript_ok] in *.
@@ -150,10 +149,10 @@ Proof.
     cbn [handle_all] in H. apply fbind_ok in H as (st1 & E1 & H).
     rewrite handle_action_decode, decode_render in E1.
     cbn [run_ok] in Hro. rewrite decode_render in Hro.
-    destruct (dact_of f a) as [D|e] eqn:ED; [|discriminate]. cbn [fbind] in E1. destruct Hro as [Hs Hr].
+    destruct (dact_of f a) as [D|e] eqn:ED; [|discriminate]. cbn [fbind] in E1. destruct Hro as (Hs & Hroom & Hr).
     assert (HI : ainv c rootns pe root f st d) by (constructor; assumption).
-    destruct (accept_step f st d a f1 D st1 HI Hph Hspec ED Hs E1) as (d1 & He1 & HR1 & Hid1 & Hal1).
-    destruct (step_reject c o rootns Hrep st D st1 HW Hph Hs E1) as (HW1 & Hph1 & _).
+    destruct (accept_step f st d a f1 D st1 HI Hph Hspec ED Hs Hroom E1) as (d1 & He1 & HR1 & Hid1 & Hal1).
+    destruct (step_ph c o rootns st D st1 Hph Hs Hroom E1) as (Hph1 & _).
     apply (IH f1 st1 d1 gs' fT st'); auto.
     + eapply spec_apply_wf; eauto.
     + rewrite (handle_d_ns st a f D st1 ED E1). exact Hok.
@@ -242,7 +241,6 @@ Proof.
 Qed.
 
 Theorem accept_format c o rootns pe root L script gs fT T :
-  c_replace c = false ->
   wf_forest L root -> (forall m, desc L root m -> is_comment (ltag (flab L m)) = false) ->
   let W := remove_comments (doc_tree L root) in
   PlaceholderUndo.npua W = true -> clean_tags W -> nodiff W ->
@@ -252,25 +250,26 @@ Theorem accept_format c o rootns pe root L script gs fT T :
   xml_format c o rootns ph_init gs W = FOk T ->
   xequiv (ws_text c) (accept T) (remove_comments (doc_tree fT root)).
 Proof.
-  intros Hrep Hwf HC W HP HCl HN Hrun Hren Hok Hnp Hro H.
+  intros Hwf HC W HP HCl HN Hrun Hren Hok Hnp Hro H.
   set (d0 := dt_of (S (fnext L)) L root).
   assert (HF : fin L root (S (fnext L))) by (eapply fin_mono; [apply (fin_root L root Hwf)|lia]).
   assert (E0 : erase d0 = W) by (apply (erase_dt_of L _ root HF HC)).
   destruct (rel_init (ws_text c) L _ root HF HC ltac:(fold d0; rewrite E0; exact HN) ltac:(fold d0; rewrite E0; exact HP)) as [HR0 Ha0].
   fold d0 in HR0, Ha0.
-  assert (HW : winv W).
+  unfold xml_format in H. apply fbind_ok in H as (st & E & H).
+  destruct (handle_all_ph c o rootns gs (FS W ph_init [(Some DIFF_PREFIX, DIFF_NS)]) st tinv_init Hro E) as [HS _].
+  set (S := fs_ph st) in *.
+  assert (HW : winv S W).
   { split; [apply npua_run_tree, HP|exact HCl| |].
     - unfold W, doc_tree. cbn [to_tree]. rewrite remove_comments_unfold.
       + cbn [xtail]. rewrite (wf_root_tail _ _ Hwf). reflexivity.
       + apply Forall_forall. intros t Ht. apply in_map_iff in Ht as (m & <- & Hm). rewrite to_tree_label. apply HC, desc_child, Hm.
     - pose proof (nodiff_unmarked W HN) as HU. destruct W as [wt wa wx wl wk]. inversion HU as [? ? ? ? ? Hx _ _]; subst.
       unfold is_inserted, ahas. cbn [xattrs]. now rewrite Hx. }
-  unfold xml_format in H. apply fbind_ok in H as (st & E & H).
-  destruct (accept_script c o rootns pe root Hrep script L (FS W ph_init [(Some DIFF_PREFIX, DIFF_NS)]) d0 gs fT st
-              Hwf E0 HR0 eq_refl Ha0 HW eq_refl Hrun Hren Hok Hnp Hro E) as (HwfT & d' & Ed & HRT & HidT & HalT).
-  destruct (handle_all_reject c o rootns Hrep gs (FS W ph_init [(Some DIFF_PREFIX, DIFF_NS)]) st HW eq_refl Hro E) as (I & P & _).
-  rewrite P in H.
-  destruct (finalize_run (fs_tree st) (wi_run _ I) (wi_tags _ I) (wi_tail _ I)) as (T' & F & A & _).
+  destruct (accept_script c o rootns pe root script L (FS W ph_init [(Some DIFF_PREFIX, DIFF_NS)]) d0 gs fT st
+              Hwf E0 HR0 eq_refl Ha0 tinv_init Hrun Hren Hok Hnp Hro E) as (HwfT & d' & Ed & HRT & HidT & HalT).
+  destruct (handle_all_reject c o rootns S gs HS (FS W ph_init [(Some DIFF_PREFIX, DIFF_NS)]) st HW tinv_init Hro E (sext_refl _)) as (I & _).
+  destruct (finalize_run S HS (fs_tree st) (wi_run _ _ I) (wi_tags _ _ I) (wi_tail _ _ I)) as (T' & F & A & _).
   rewrite F in H. inversion H; subst T'. unfold xequiv.
   rewrite A, canon_drop_set_tail, !canon_drop, <- Ed. f_equal.
   rewrite <- HidT. apply rel_tree; [exact HRT|].
